@@ -33,7 +33,23 @@ Definition wf_devgasb (F : funs) (s : devgas_st) : bool :=
   sortedb (dg_shares s) && keys_matchb fs_contract (dg_shares s) &&
   eqb_of lnn_dec (dg_idx_dep s) (idx_of (fun _ v => fs_deployer v) (dg_shares s)) &&
   eqb_of lnn_dec (dg_idx_wd s) (idx_of (fun _ v => fs_withdrawer v) (dg_shares s)) &&
-  (f_dgsan F (dg_params s) =? dg_params s).
+  (f_dgsan F (dg_params s) =? dg_params s) &&
+  forallb (fun kv => fs_valid F (snd kv)) (dg_shares s) &&     (* genesis validation accepts every stored fee share *)
+  f_dgp_ok F (dg_params s).                                    (* … and the stored params *)
+
+(** what the Go functions behind the address / params tables guarantee, on finite lists of keys and params ids:
+    re-encoding a parsed address parses; Sanitize is the identity on params that Validate accepts *)
+Definition funs_dg_okb (F : funs) (ks : list key) (ps : list id) : bool :=
+  forallb (fun k => if f_addr_ok F k then f_addr_ok F (f_canon F k) else true) ks &&
+  forallb (fun p => if f_dgp_ok F p then f_dgsan F p =? p else true) ps.
+Definition dg_op_keys (op : dg_op) : list key :=
+  match op with
+  | DWasm c i => c :: wi_creator i :: match wi_admin i with Some a => [a] | None => [] end
+  | DRegister c d w | DUpdate c d w => [c; d; w]
+  | DCancel c d => [c; d]
+  | DParams _ _ => []
+  end.
+Definition dg_op_params (op : dg_op) : list id := match op with DParams _ p => [p] | _ => [] end.
 
 Definition wf_evmb (F : funs) (s : evm_st) : bool :=
   sortedb (ev_code s) && forallb (fun hc => (f_hash F (snd hc) =? fst hc) && negb (f_code_empty F (snd hc))) (ev_code s) &&
